@@ -5,7 +5,10 @@
   operands, and `evalTmp` = "evaluate every sub-expression into its own temporary with the C
   function": mpz = exact `Int` arithmetic (tdiv rounding for / and %, floor for >>, two's complement
   for & | ^ ~), mpq = exact canonical rationals (core `Rat`).  A raised MPIR exception (division by
-  zero, sqrt of a negative, non-finite double) is `none`.
+  zero, sqrt of a negative, non-finite double) is `none`.  The accessor sub-objects `q.get_num()` /
+  `q.get_den()` are mpz-typed leaves (`E.zn` / `E.zd`) reading a component of the mpq store; on the
+  implementation side they are the field objects `.num i` / `.den i` of the heap (statements THROUGH
+  the accessors: Model/CxxAcc.lean).
 
   Part 2 (what mpirxx.h does): a heap of mpz_t objects (`ZLoc`: variables, temporaries and the num/den
   fields of mpq_t objects), the C functions used by mpirxx.h as heap transformers (their meaning is
@@ -48,10 +51,14 @@ inductive Cmp where
   | eq | ne | lt | le | gt | ge | cmp
   deriving Repr, DecidableEq, Inhabited
 
-/-- expression trees.  `zv i` / `qv i` are mpz_class / mpq_class objects (slots). -/
+/-- expression trees.  `zv i` / `qv i` are mpz_class / mpq_class objects (slots); `zn i` / `zd i` are the
+    accessor sub-objects `q_i.get_num()` / `q_i.get_den()` (mpirxx.h:1967-1974: `mpz_class &` references to the
+    numerator / denominator field of the `mpq_t` inside `mpq_class` object `i`), usable wherever an `mpz_class` is. -/
 inductive E where
   | zv (i : Nat)
   | qv (i : Nat)
+  | zn (i : Nat)
+  | zd (i : Nat)
   | un (o : Un) (a : E)
   | bin (o : Bin) (a b : E)
   | binL (o : Bin) (c : Bi) (b : E)
@@ -241,6 +248,8 @@ def shV (o : Sh) (n : Nat) : Val → Val
 def E.ty : E → Ty
   | .zv _ => .z
   | .qv _ => .q
+  | .zn _ => .z
+  | .zd _ => .z
   | .un _ a => a.ty
   | .bin _ a b => if a.ty = .z ∧ b.ty = .z then .z else .q
   | .binL _ _ b => b.ty
@@ -256,6 +265,8 @@ def Bi.ok : Bi → Bool
 def E.wt : E → Bool
   | .zv _ => true
   | .qv _ => true
+  | .zn _ => true
+  | .zd _ => true
   | .un o a => a.wt && (a.ty = .z || o.qOk)
   | .bin o a b => a.wt && b.wt && ((a.ty = .z && b.ty = .z) || o.qOk)
   | .binL o c b => c.ok && b.wt && (b.ty = .z || o.qOk)
@@ -267,6 +278,8 @@ def E.wt : E → Bool
 def evalTmp (env : Env) : E → Option Val
   | .zv i => some (.z (env.z i))
   | .qv i => some (.q (env.q i))
+  | .zn i => some (.z (env.q i).num)                      -- reading a component of the (canonical) mpq store
+  | .zd i => some (.z (Int.ofNat (env.q i).den))
   | .un o a => (evalTmp env a).bind (unV o)
   | .bin o a b => (evalTmp env a).bind fun x => (evalTmp env b).bind fun y => binV o x y
   | .binL o c b => (evalTmp env b).bind fun y => (biVal y.ty c).bind fun x => binV o x y
@@ -653,47 +666,78 @@ def fnShZ (cst : Bool) (o : Sh) (p w : ZLoc) (n : Nat) : M :=
   | .shl => Lshift.z cst p w n
   | .shr => Rshift.z cst p w n
 
+/-! ### temporaries semantics of an mpz-typed tree over the raw contents of the mpz_t objects
+
+  `evalTmpZ zs e`: every sub-expression into its own temporary with the C function, every leaf read from `zs`
+  (`zv i` from `.v i`, the accessors `zn i` / `zd i` from the fields `.num i` / `.den i`).  For a heap whose
+  mentioned mpq objects are canonical this is `evalTmp` (lemma `evalTmp_z`); it is also meaningful between an
+  assignment through an accessor and `canonicalize()`, when the fields are not a canonical pair. -/
+
+/-- value of a built-in operand once converted to mpz (`mpz_set_si/ui/d`) -/
+def biZ : Bi → Option Int
+  | .si v => some v
+  | .ui v => some (Int.ofNat v)
+  | .d b => tmpzD b
+
+def shZ (o : Sh) (n : Nat) (x : Int) : Int := match o with | .shl => zshl x n | .shr => zshr x n
+
+def evalTmpZ (zs : ZLoc → Int) : E → Option Int
+  | .zv i => some (zs (.v i))
+  | .zn i => some (zs (.num i))
+  | .zd i => some (zs (.den i))
+  | .qv _ => none
+  | .un o a => (evalTmpZ zs a).bind (unZ o)
+  | .bin o a b => (evalTmpZ zs a).bind fun x => (evalTmpZ zs b).bind fun y => binZ o x y
+  | .binL o c b => (evalTmpZ zs b).bind fun y => (biZ c).bind fun x => binZ o x y
+  | .binR o a c => (evalTmpZ zs a).bind fun x => (biZ c).bind fun y => binZ o x y
+  | .sh o a n => (evalTmpZ zs a).map (shZ o n)
+
 /-! ### the expression-template strategy for mpz-typed trees (mpirxx.h:2382–2772)
 
   `evalZ cst k p e` is `__gmp_set_expr(p, e)` for an mpz-typed tree: `mpz_set` for an `mpz_class`
   leaf (mpirxx.h:2267), else `e.eval(p)` with the specialisation selected by the shapes of the
   operands.  `k` is the index of the next unused `mpz_class` temporary object. -/
 
-def E.zleaf? : E → Option Nat
-  | .zv i => some i
+/-- the `mpz_t` object an `mpz_class`-typed leaf denotes: a variable, or (accessors) a field of an mpq object -/
+def E.zleaf? : E → Option ZLoc
+  | .zv i => some (.v i)
+  | .zn i => some (.num i)
+  | .zd i => some (.den i)
   | _ => none
 
 def evalZ (cst : Bool) : (k : Nat) → (p : ZLoc) → E → M
   | _, p, .zv i => fun h => some (mpz_set p (.v i) h)
+  | _, p, .zn i => fun h => some (mpz_set p (.num i) h)                 -- `q.get_num()` is an `mpz_class const&`: same overload
+  | _, p, .zd i => fun h => some (mpz_set p (.den i) h)
   | _, _, .qv _ => fun _ => none
   | k, p, .un o a =>
     match a.zleaf? with
-    | some i => fnUnZ o p (.v i)                                        -- mpirxx.h:2391
+    | some i => fnUnZ o p i                                             -- mpirxx.h:2391
     | none => fun h => (evalZ cst k p a h).bind (fnUnZ o p p)           -- mpirxx.h:2409: expr.val.eval(p); Op::eval(p, p)
   | k, p, .bin o a b =>
     match a.zleaf?, b.zleaf? with
-    | some i, some j => fnBinZ cst o p (.loc (.v i)) (.loc (.v j))      -- mpirxx.h:2437
-    | some i, none => fun h =>                                          -- mpirxx.h:2573
-        if p ≠ .v i then (evalZ cst k p b h).bind (fnBinZ cst o p (.loc (.v i)) (.loc p))
-        else (evalZ cst (k + 1) (.v k) b h).bind (fnBinZ cst o p (.loc (.v i)) (.loc (.v k)))
+    | some i, some j => fnBinZ cst o p (.loc i) (.loc j)                -- mpirxx.h:2437
+    | some i, none => fun h =>                                          -- mpirxx.h:2573 (`p != expr.val1.__get_mp()`: pointer comparison)
+        if p ≠ i then (evalZ cst k p b h).bind (fnBinZ cst o p (.loc i) (.loc p))
+        else (evalZ cst (k + 1) (.v k) b h).bind (fnBinZ cst o p (.loc i) (.loc (.v k)))
     | none, some j => fun h =>                                          -- mpirxx.h:2608
-        if p ≠ .v j then (evalZ cst k p a h).bind (fnBinZ cst o p (.loc p) (.loc (.v j)))
-        else (evalZ cst (k + 1) (.v k) a h).bind (fnBinZ cst o p (.loc (.v k)) (.loc (.v j)))
+        if p ≠ j then (evalZ cst k p a h).bind (fnBinZ cst o p (.loc p) (.loc j))
+        else (evalZ cst (k + 1) (.v k) a h).bind (fnBinZ cst o p (.loc (.v k)) (.loc j))
     | none, none => fun h =>                                            -- mpirxx.h:2747
         (evalZ cst (k + 1) (.v k) b h).bind fun h1 =>                   --   __gmp_temp<T> temp2(expr.val2, p);
         (evalZ cst (k + 1) p a h1).bind                                  --   expr.val1.eval(p);
           (fnBinZ cst o p (.loc p) (.loc (.v k)))                        --   Op::eval(p, p, temp2)
   | k, p, .binL o c b =>
     match b.zleaf? with
-    | some j => fnBinZ cst o p (.bi c) (.loc (.v j))                    -- mpirxx.h:2482
+    | some j => fnBinZ cst o p (.bi c) (.loc j)                         -- mpirxx.h:2482
     | none => fun h => (evalZ cst k p b h).bind (fnBinZ cst o p (.bi c) (.loc p))   -- mpirxx.h:2667
   | k, p, .binR o a c =>
     match a.zleaf? with
-    | some i => fnBinZ cst o p (.loc (.v i)) (.bi c)                    -- mpirxx.h:2464
+    | some i => fnBinZ cst o p (.loc i) (.bi c)                         -- mpirxx.h:2464
     | none => fun h => (evalZ cst k p a h).bind (fnBinZ cst o p (.loc p) (.bi c))   -- mpirxx.h:2646
   | k, p, .sh o a n =>
     match a.zleaf? with
-    | some i => fnShZ cst o p (.v i) n
+    | some i => fnShZ cst o p i n
     | none => fun h => (evalZ cst k p a h).bind (fnShZ cst o p p n)
 
 
@@ -744,7 +788,7 @@ def fnCmpZ (o : Cmp) (a b : ZArg) (h : Heap) : Option Int :=
     operand is an `mpz_class`, otherwise a temporary `mpz_class` is constructed from the expression -/
 def bindZ (cst : Bool) (k : Nat) (e : E) (h : Heap) : Option (ZLoc × Heap) :=
   match e.zleaf? with
-  | some i => some (.v i, h)
+  | some l => some (l, h)
   | none => (evalZ cst (k + 1) (.v k) e h).map fun h' => (.v k, h')
 
 /-- a comparison statement whose class operands are mpz-typed; `K` = number of variables -/
@@ -875,7 +919,7 @@ end Divides
 /-- an operand handed to an mpq function object -/
 inductive QArg where
   | q (i : Nat)          -- mpq object
-  | z (i : Nat)          -- mpz_class object `.v i` (only `+` and `-` have such overloads)
+  | z (l : ZLoc)         -- mpz_class object (a variable / temporary `.v i`, or an accessor sub-object; only `+` and `-` have such overloads)
   | bi (c : Bi)
   deriving DecidableEq, Repr
 
@@ -886,7 +930,7 @@ def fnBinQ (cst : Bool) (o : Bin) (p : Nat) (a b : QArg) : M :=
   | .add, .q r, .bi (.ui l) | .add, .bi (.ui l), .q r => Plus.q_ui cst p r l
   | .add, .q r, .bi (.si l) | .add, .bi (.si l), .q r => Plus.q_si cst p r l
   | .add, .q r, .bi (.d d) | .add, .bi (.d d), .q r => Plus.q_d p r d
-  | .add, .q r, .z z | .add, .z z, .q r => Plus.q_z p r (.v z)
+  | .add, .q r, .z z | .add, .z z, .q r => Plus.q_z p r z
   | .sub, .q r, .q s => Minus.qq p r s
   | .sub, .q r, .bi (.ui l) => Minus.q_ui cst p r l
   | .sub, .bi (.ui l), .q r => Minus.ui_q cst p l r
@@ -894,8 +938,8 @@ def fnBinQ (cst : Bool) (o : Bin) (p : Nat) (a b : QArg) : M :=
   | .sub, .bi (.si l), .q r => Minus.si_q cst p l r
   | .sub, .q r, .bi (.d d) => Minus.q_d p r d
   | .sub, .bi (.d d), .q r => Minus.d_q p d r
-  | .sub, .q r, .z z => Minus.q_z p r (.v z)
-  | .sub, .z z, .q r => Minus.z_q p (.v z) r
+  | .sub, .q r, .z z => Minus.q_z p r z
+  | .sub, .z z, .q r => Minus.z_q p z r
   | .mul, .q r, .q s => Multiplies.qq p r s
   | .mul, .q r, .bi (.ui l) | .mul, .bi (.ui l), .q r => Multiplies.q_ui cst p r l
   | .mul, .q r, .bi (.si l) | .mul, .bi (.si l), .q r => Multiplies.q_si cst p r l
@@ -934,7 +978,10 @@ def E.qleaf? : E → Option Nat
   | .qv i => some i
   | _ => none
 
-/-- `__gmp_set_expr(mpq_ptr q, const __gmp_expr<mpz_t, T> &)`: evaluate into the numerator, denominator := 1 -/
+/-- `__gmp_set_expr(mpq_ptr q, const __gmp_expr<mpz_t, T> &)` (mpirxx.h:2320-2325), in the order of the two statements:
+      `__gmp_set_expr(mpq_numref(q), expr);`   the integer expression is evaluated into the numerator FIRST, from the old state
+                                               (it may read `q.get_num()` / `q.get_den()` of the destination itself),
+      `mpz_set_ui(mpq_denref(q), 1);`          then denominator := 1. -/
 def convZ (cst : Bool) (k p : Nat) (e : E) : M := fun h =>
   (evalZ cst k (.num p) e h).map (mpz_set_ui (.den p) 1)
 
@@ -944,6 +991,8 @@ def isAddSub : Bin → Bool
 
 def evalQ (cst : Bool) : (k p : Nat) → E → M
   | _, p, .zv i => fun h => some (mpq_set_z p (.v i) h)                 -- mpirxx.h:2292
+  | _, p, .zn i => fun h => some (mpq_set_z p (.num i) h)               --   (`q = r.get_num()`: the same overload, also for r = q)
+  | _, p, .zd i => fun h => some (mpq_set_z p (.den i) h)
   | _, p, .qv i => fun h => some (mpq_set p i h)                        -- mpirxx.h:2304
   | k, p, .un o a =>
     if a.ty = .z then convZ cst k p (.un o a)
@@ -971,16 +1020,16 @@ def evalQ (cst : Bool) : (k p : Nat) → E → M
       match a.zleaf?, b.qleaf? with
       | some i, some j => fnBinQ cst o p (.z i) (.q j)
       | some i, none => fun h => (evalQ cst (k + 1) k b h).bind (fnBinQ cst o p (.z i) (.q k))
-      | none, some j => fun h => (evalZ cst (k + 1) (.v k) a h).bind (fnBinQ cst o p (.z k) (.q j))
+      | none, some j => fun h => (evalZ cst (k + 1) (.v k) a h).bind (fnBinQ cst o p (.z (.v k)) (.q j))
       | none, none => fun h =>
-          (evalZ cst (k + 1) (.v k) a h).bind fun h1 => (evalQ cst (k + 1) p b h1).bind (fnBinQ cst o p (.z k) (.q p))
+          (evalZ cst (k + 1) (.v k) a h).bind fun h1 => (evalQ cst (k + 1) p b h1).bind (fnBinQ cst o p (.z (.v k)) (.q p))
     else if isAddSub o ∧ b.ty = .z then                                  -- mpq ± mpz, mpirxx.h:2803, 2843, 2887, 2932
       match a.qleaf?, b.zleaf? with
       | some i, some j => fnBinQ cst o p (.q i) (.z j)
-      | some i, none => fun h => (evalZ cst (k + 1) (.v k) b h).bind (fnBinQ cst o p (.q i) (.z k))
+      | some i, none => fun h => (evalZ cst (k + 1) (.v k) b h).bind (fnBinQ cst o p (.q i) (.z (.v k)))
       | none, some j => fun h => (evalQ cst (k + 1) k a h).bind (fnBinQ cst o p (.q k) (.z j))
       | none, none => fun h =>
-          (evalZ cst (k + 1) (.v k) b h).bind fun h1 => (evalQ cst (k + 1) p a h1).bind (fnBinQ cst o p (.q p) (.z k))
+          (evalZ cst (k + 1) (.v k) b h).bind fun h1 => (evalQ cst (k + 1) p a h1).bind (fnBinQ cst o p (.q p) (.z (.v k)))
     else
       match a.qleaf?, b.qleaf? with
       | some i, some j => fnBinQ cst o p (.q i) (.q j)                   -- mpirxx.h:2437
